@@ -97,8 +97,30 @@ pub struct Unit {
 pub struct Found {
     pub world: &'static str,
     pub scenario: &'static str,
+    /// lowest run index at which this class (invariant, key) was violated
     pub run: u64,
     pub v: Violation,
+    /// number of violations of this class in the unit
+    pub count: u64,
+}
+
+/// violations are kept per class (invariant, key): count + the instance with the lowest run index, so a badly
+/// broken tree cannot exhaust memory and the reported instance does not depend on thread timing
+fn add_found(map: &mut std::collections::BTreeMap<(String, String), Found>, f: Found) {
+    let k = (f.v.invariant.clone(), f.v.key.clone());
+    match map.get_mut(&k) {
+        Some(old) => {
+            old.count += f.count;
+            if (f.run, f.v.step) < (old.run, old.v.step) {
+                let c = old.count;
+                *old = f;
+                old.count = c;
+            }
+        }
+        None => {
+            map.insert(k, f);
+        }
+    }
 }
 
 #[derive(Default)]
@@ -136,7 +158,7 @@ impl Slots {
 
 pub fn run_unit(unit: &Unit, unit_idx: u64, seed: u64, runs: u64, workers: usize, focus: &str, slots: &Slots) -> UnitResult {
     let next = AtomicU64::new(0);
-    let merged: Mutex<(Aggregate, Vec<Found>, Vec<(u64, u64)>)> = Mutex::new((Aggregate::default(), Vec::new(), Vec::new()));
+    let merged: Mutex<(Aggregate, std::collections::BTreeMap<(String, String), Found>, Vec<(u64, u64)>)> = Mutex::new((Aggregate::default(), Default::default(), Vec::new()));
     const CHUNK: u64 = 8;
     std::thread::scope(|s| {
         for w in 0..workers {
@@ -144,7 +166,7 @@ pub fn run_unit(unit: &Unit, unit_idx: u64, seed: u64, runs: u64, workers: usize
             let merged = &merged;
             s.spawn(move || {
                 let mut agg = Aggregate::default();
-                let mut found = Vec::new();
+                let mut found: std::collections::BTreeMap<(String, String), Found> = Default::default();
                 let mut hashes: Vec<(u64, u64)> = Vec::new();
                 loop {
                     let start = next.fetch_add(CHUNK, Ordering::Relaxed);
@@ -175,7 +197,7 @@ pub fn run_unit(unit: &Unit, unit_idx: u64, seed: u64, runs: u64, workers: usize
                         agg.stats.merge(&ctx.stats);
                         hashes.push((run, ctx.loghash));
                         for v in ctx.violations {
-                            found.push(Found { world: unit.world.name(), scenario: unit.scenario, run, v });
+                            add_found(&mut found, Found { world: unit.world.name(), scenario: unit.scenario, run, v, count: 1 });
                         }
                     }
                 }
@@ -186,12 +208,15 @@ pub fn run_unit(unit: &Unit, unit_idx: u64, seed: u64, runs: u64, workers: usize
                 m.0.nontrivial_runs += agg.nontrivial_runs;
                 m.0.stats.merge(&agg.stats);
                 m.0.signatures.extend(agg.signatures.iter().copied());
-                m.1.extend(found);
+                for (_, f) in found {
+                    add_found(&mut m.1, f);
+                }
                 m.2.extend(hashes);
             });
         }
     });
-    let (agg, mut found, mut hashes) = merged.into_inner().unwrap();
+    let (agg, found, mut hashes) = merged.into_inner().unwrap();
+    let mut found: Vec<Found> = found.into_values().collect();
     found.sort_by(|a, b| (a.run, &a.v.invariant, a.v.step).cmp(&(b.run, &b.v.invariant, b.v.step)));
     hashes.sort();
     let mut h = 0xcbf2_9ce4_8422_2325u64;
